@@ -29,6 +29,7 @@ def nasty(l):
         "seps": f"ls\u2028ps\u2029end [{l}]",
         "unicode": f"\u00e9\u00e8\u00a0\u200b\u65e5\u672c\u8a9e \U0001F600 \u200f [{l}]",
         "controls": f"bell\u0007 nul-free \u0001 del\u007f [{l}]",
+        "nul": f"field\u00007 of 9, \u000012 and \u00008 [{l}]",
         "single": f"it's 'quoted' `backtick` ${{x}} [{l}]",
         "amp": f"a & b < c > d [{l}]",
         "script_upper": f"x </SCRIPT> y </ScRiPt > z <SCRIPT>w [{l}]",
